@@ -1,4 +1,19 @@
-/- C01 — property theorems (stub; filled in by the owning work package). -/
-import Rdm.Basic
+/-
+  C01 — every decision is a complete, well-formed ranking.
+-/
+import Rdm.Model.Links
+import Rdm.Model.Ranking
+import Rdm.Spec.C01
 namespace Rdm.Props.C01
+open Rdm
+
+/-- the utility ranking has exactly the input's ids (as a multiset), for every number type -/
+theorem ranking_ids_perm {α : Type} [Num α] (l : List (Scored α)) :
+    ((ranking l).map (·.id)).Perm (l.map (·.id)) := by
+  unfold ranking
+  simp only [List.map_map]
+  have h := List.mergeSort_perm (l.map fun s => ({ s with v := round8 s.v } : Scored α)) rankLe
+  have h2 := h.map (fun s : Scored α => s.id)
+  simpa [Function.comp_def] using h2
+
 end Rdm.Props.C01
